@@ -129,7 +129,12 @@ func (c *wsConn) nextMessage() {
 		close(c.incoming)
 		return
 	}
-	c.incoming <- r
+	select {
+	case c.incoming <- r:
+	case <-c.exiting:
+		// the connection loop is gone (e.g. its context was cancelled):
+		// nobody will ever receive this message
+	}
 }
 
 // nextWriter waits for writeLk and invokes the cb callback with WS message
